@@ -588,7 +588,7 @@ func (c *Ctx) loopSpecFor(n ast.Node) (*LoopSpec, int) {
 
 // havocLoop forgets everything the loop may change: assigned locals and the whole heap,
 // then re-assumes the function-level frame (objects outside the modifies set keep their entry values).
-func (c *Ctx) havocLoop(assigned map[*types.Var]bool) {
+func (c *Ctx) havocLoop(assigned map[*types.Var]bool, body ...ast.Node) {
 	for o := range assigned {
 		if _, ok := c.boxedCell(o); ok {
 			continue // lives in the heap, havocked below
@@ -601,7 +601,31 @@ func (c *Ctx) havocLoop(assigned map[*types.Var]bool) {
 			c.Fr.setVar(o, nv)
 		}
 	}
-	c.havocHeap()
+	eff := c.effectsOf(c.Fr.Pkg, body...)
+	if eff.all || len(body) == 0 {
+		c.havocHeap()
+		return
+	}
+	c.havocHeaps(eff)
+}
+
+// havocHeaps forgets only the heap arrays a loop body may write.
+func (c *Ctx) havocHeaps(eff *effects) {
+	names := make([]string, 0, len(eff.heaps))
+	for n := range eff.heaps {
+		names = append(names, n)
+	}
+	sortStrings(names)
+	oldTop := c.St.Top
+	nt := c.fresh("top", SInt)
+	c.assume(Le(oldTop, nt))
+	c.St.Top = nt
+	for _, n := range names {
+		cur := c.heapArr(n, eff.heaps[n])
+		h := c.fresh("H$"+n, cur.Sort)
+		c.St.Heap[n] = h
+		c.assumeFrame(n, h)
+	}
 }
 
 // havocHeap replaces every materialised heap array by a fresh one related to the entry heap by the frame.
@@ -721,7 +745,7 @@ func (c *Ctx) execFor(x *ast.ForStmt) flow {
 	c.curPos = x.Pos()
 	c.checkInvariants(ls, ord, "init")
 	assigned := c.assignedIn(x.Body, x.Post, x.Cond)
-	c.havocLoop(assigned)
+	c.havocLoop(assigned, x.Body, x.Post, x.Cond)
 	c.assumeInvariants(ls)
 	var dec0 Term
 	if ls.Decreases != nil {
@@ -830,7 +854,7 @@ func (c *Ctx) rangeSlice(x *ast.RangeStmt, u *types.Slice, ls *LoopSpec, ord int
 	c.curPos = x.Pos()
 	c.checkInvariants(ls, ord, "init")
 	assigned := c.assignedIn(x.Body)
-	c.havocLoop(assigned)
+	c.havocLoop(assigned, x.Body)
 	i := c.fresh("i", SInt)
 	c.assume(And(Le(IntLit(0), i), Le(i, sl.Len)))
 	setIdx(i)
@@ -879,7 +903,7 @@ func (c *Ctx) rangeMap(x *ast.RangeStmt, u *types.Map, ls *LoopSpec, ord int) fl
 	c.curPos = x.Pos()
 	c.checkInvariants(ls, ord, "init")
 	assigned := c.assignedIn(x.Body)
-	c.havocLoop(assigned)
+	c.havocLoop(assigned, x.Body)
 	vis := c.fresh("visited", setSort)
 	c.Fr.Ghost[visName] = &Val{K: VLogic, T: vis}
 	c.Fr.Ghost["$visited"] = c.Fr.Ghost[visName]
